@@ -43,7 +43,8 @@ seed2 = {
         cont("c2", leaf("d"), cont("e", leaf("f"), leaf("h", cfg="false")), cfg="false"),
         choice("pick", leaf("short1"), case("long", leaf("l1"), leaf("l2"))),
     ],
-    augs=[dict(path=["c1", "lc"], c=[leaf("viaaug")], mod="")]),
+    augs=[dict(path=["c1", "lc"], c=[leaf("viaaug")], mod=""),
+          dict(path=["pick"], c=[leaf("tok"), cont("crt", leaf("cl"))], mod="")]),
   "s1": module("s1", "m", sub=True, belongs="m", imports=[dict(m="lib", p="lb")],
     gs=[grouping("sg", leaf("sl", desc="from sub"))],
     body=[cont("fromsub", uses("sg"), leaf("t"))]),
